@@ -584,3 +584,114 @@ Definition ir_well_typed (r : lres) : bool :=
   end.
 
 Definition ir_type (r : lres) : option irty := match r with Err => None | Ok d _ _ => Some d end.
+
+(* ---- statement-level operand positions ------------------------------------------------------ *)
+Inductive sres : Set := SErr | SOk (code : list instr).
+
+Definition code_of (r : lres) (k : list instr -> sres) : sres :=
+  match r with Err => SErr | Ok _ _ c => k c end.
+
+(* ddptypes.DeepEqual(counter type, KOMMAZAHL): through aliases and definitions; the only definition is of Zahl *)
+Definition float_counter (cnt : ty) : bool := equal cnt komma.
+
+(* VisitForStmt; `step_const`: the step is the literal the parser supplied (a constant, no conversion problem arises
+   from its LLVM type: it is an i64 resp. double constant) *)
+Definition lower_for (cnt from to step : ty) : sres :=
+  let var := ir cnt in
+  let idx := if float_counter cnt then f64 else i64 in
+  let cmp (x y : irty) : option (list instr) :=
+    if float_counter cnt then
+      match int_or_byte_as_float x x, int_or_byte_as_float y y with
+      | Some (xv, cx), Some (yv, cy) => Some (cx ++ cy ++ [IFCmp xv yv])
+      | _, _ => None
+      end
+    else
+      match float_or_byte_as_int x x, float_or_byte_as_int y y with
+      | Some (xv, cx), Some (yv, cy) => Some (cx ++ cy ++ [ICmp xv yv])
+      | _, _ => None
+      end in
+  code_of (lower_ctx (CInit cnt) from (ir from) (ir from)) (fun c_init =>
+    match numeric_cast var var idx with
+    | None => SErr
+    | Some (v0, c0) =>
+        let incr : option (list instr) :=
+          if float_counter cnt then
+            match int_or_byte_as_float (ir step) (ir step) with
+            | Some (sv, cs) => Some (cs ++ [IFBin idx sv; IStore f64 var; IStore f64 idx])
+            | None => None
+            end
+          else
+            match float_or_byte_as_int (ir step) (ir step), numeric_cast i64 i64 var with
+            | Some (sv, cs), Some (bv, cb) => Some (cs ++ [IBin idx sv] ++ cb ++ [IStore bv var; IStore i64 idx])
+            | _, _ => None
+            end in
+        match incr, cmp (ir step) i64, cmp idx (ir to) with
+        | Some ci, Some csign, Some cto =>
+            SOk (c_init ++ c0 ++ [IStore v0 idx] ++ ci ++ csign ++ [ICondBr i1] ++ cto ++ [ICondBr i1] ++ cto ++ [ICondBr i1])
+        | _, _, _ => SErr
+        end
+    end).
+
+Definition lower_stmt (s : stmt) : sres :=
+  match s with
+  | SRepeat n =>
+      match foba (ir n) with
+      | Some (nv, c) => SOk (c ++ [IStore nv i64; IBinC i64; ICmpC i64; ICondBr i1])
+      | None => SErr
+      end
+  | SWhile c | SIf c => SOk [ICondBr (ir c)]
+  | SListCount n v =>
+      let decl := ir (count_decl v) in
+      match list_lit_type v, foba (ir n) with
+      | Some lt, Some (nv, cn) =>
+          let e := ir v in
+          SOk (cn ++ [ICall [lt; i64] [lt; nv]; ICmp i64 i64; ICondBr i1]
+                  ++ (if prim e then [IStore e e] else [ICall [e; e] [e; e]])
+                  ++ claim_or_copy decl lt decl)
+      | _, _ => SErr
+      end
+  | SListLit a b =>
+      match list_lit_type a with
+      | None => SErr
+      | Some lt =>
+          let e := ir a in
+          code_of (cast_to_any lt lt) (fun c2 =>
+            SOk ([ICall [lt; i64] [lt; i64]] ++ claim_or_copy e (ir a) (ir a) ++ claim_or_copy e (ir b) (ir b)
+                   ++ c2 ++ claim_or_copy any any any))
+      end
+  | SIndexAssign cont idx val =>
+      match ir cont with
+      | Ls e =>
+          match foba (ir idx) with
+          | None => SErr
+          | Some (iv, ci) =>
+              (* the target is the element: the rest is an assignment to a variable of the element type *)
+              code_of (lower_ctx (CAssign (elem_type cont)) val (ir val) (ir val)) (fun ca =>
+                SOk (ci ++ [IBinC iv; ICmp iv i64; ICmpC iv; IBin i1 i1; ICondBr i1] ++ ca))
+          end
+      | Sc Str =>
+          match foba (ir idx) with
+          | None => SErr
+          | Some (iv, ci) => SOk (ci ++ [ICall [str; i32; i64] [str; ir val; iv]])
+          end
+      | _ => SErr
+      end
+  | SFor cnt from to => lower_for cnt from to (default_step cnt)
+  | SForStep cnt from to step => lower_for cnt from to step
+  | SForRange el inn =>
+      let lv := ir el in
+      match ir inn with
+      | Sc Str => SOk [ICmpC i64; ICondBr i1; ICmp i64 i64; ICondBr i1; ICall [str; i32] [str; lv]; ICmpC i64; ICondBr i1]
+      | Ls e =>
+          SOk ([ICmpC i64; ICondBr i1; ICmp i64 i64; ICondBr i1]
+                 ++ (if prim (Sc e) then [IStore (Sc e) lv] else [ICall [Sc e; Sc e] [lv; Sc e]]))
+      | _ => SErr
+      end
+  end.
+
+Definition stmt_well_typed (r : sres) : bool :=
+  match r with SErr => false | SOk c => match code_verdict c with VOk => true | _ => false end end.
+
+Definition verdict_stmt (s : stmt) : verdict :=
+  if negb (tc_stmt s) then VReject
+  else match lower_stmt s with SErr => VInternal | SOk c => code_verdict c end.
